@@ -147,7 +147,27 @@ func genEnv(r *Rng, malformed bool) []string {
 		"-tags=netgo", "-tags=netgo\t-mod=mod", "-mod=mod -tags=x,y", "-mod=readonly", "-tags=a\n-modfile=/tmp/evil.mod"}
 	n := r.Intn(13)
 	var env []string
-	if r.Chance(15) {
+	if r.Chance(2) {
+		// a BIG environment (CI systems export whole configuration files): unrelated entries of up to
+		// 120,000 bytes each, with a total around a quarter, a half, one and one and a quarter MiB
+		total := pick(r, []int{250000, 520000, 1040000, 1048576 - 40, 1048576 + 7, 1300000})
+		for k := 0; total > 0; k++ {
+			sz := 120000
+			if total < sz {
+				sz = total
+			}
+			key := fmt.Sprintf("BULK_CONFIG_%02d=", k)
+			if sz <= len(key) {
+				break
+			}
+			env = append(env, key+strings.Repeat(string(rune('a'+k%26)), sz-len(key)))
+			total -= sz
+			if k == 3 {
+				env = append(env, spell(pick(r, guardedKeysGo))+"="+pick(r, values))
+			}
+		}
+		n = 1 + r.Intn(4)
+	} else if r.Chance(15) {
 		// saturated: EVERY guarded name occurs (each in some spelling, shuffled, unrelated entries in
 		// between), and more spellings follow - the shape an implementation with an "all seen, done" exit
 		// or a per-name first/last rule handles differently from a short environment
@@ -187,7 +207,7 @@ func genEnv(r *Rng, malformed bool) []string {
 }
 
 func suiteEnv(c *Ctx) error {
-	c.Res.Rule = "raw envp generated from pools (guarded keys in 6 spellings incl. U+017F/U+0131, near-miss keys, entries without '=', duplicates; one case in seven SATURATED: all seven guarded names present, then further spellings); child process prints os.Environ() and GetHardenedEnv(); non-trivial = child environ has >=1 guarded-key spelling and >=1 unrelated entry; distinct by sha256 of the envp"
+	c.Res.Rule = "raw envp generated from pools (guarded keys in 6 spellings incl. U+017F/U+0131, near-miss keys, entries without '=', duplicates; one case in fifty BIG: unrelated entries of up to 120,000 bytes, 0.25 to 1.25 MiB in total; one case in seven SATURATED: all seven guarded names present, then further spellings); child process prints os.Environ() and GetHardenedEnv(); non-trivial = child environ has >=1 guarded-key spelling and >=1 unrelated entry; distinct by sha256 of the envp"
 	n := c.N
 	if n == 0 {
 		n = 600
@@ -263,7 +283,11 @@ func suiteEnv(c *Ctx) error {
 		}
 		replay := map[string]interface{}{"envp_hex": envHex, "envp": cse.envp, "hardened": hardened}
 		nv := c.Raised
-		c.Sample(map[string]interface{}{"envp": cse.envp, "hardened": hardened})
+		if big := len(strings.Join(cse.envp, "")) > 100000; big {
+			c.Count("big_environment")
+		} else {
+			c.Sample(map[string]interface{}{"envp": cse.envp, "hardened": hardened})
+		}
 
 		// ---- property oracle on the REAL output (independent of the Lean model) ----
 		for _, k := range guardedKeysGo {
